@@ -213,4 +213,5 @@ def prev_complete(tokens_line):
 
 
 if __name__ == "__main__":
-    main()
+    from framework import guarded
+    guarded("C09", main)
